@@ -6,7 +6,7 @@ CONSTANTS
   EscAware = TRUE
   PA = {123, 125, 91, 93, 34, 92, 49, 44, 58}
   LP = 5
-  LP1 = 5
+  LP1 = 4
   LP2 = 2
   HA = {123, 125, 91, 93, 34, 92, 49, 44, 32}
   LH = 4
